@@ -12,6 +12,7 @@ package c18
 import (
 	"context"
 	"fmt"
+	"io"
 	"os"
 	"regexp"
 	"strconv"
@@ -28,6 +29,7 @@ func gen(g *kernel.Rng, seed uint64, tier string) *kernel.Plan {
 	p := &kernel.Plan{Property: "C18", Seed: seed, Cfg: map[string]int64{}}
 	nt := g.Range(2, maxTasks)
 	p.Cfg["tasks"] = int64(nt)
+	p.Cfg["closer"] = int64(g.Intn(2)) // is the writer handed to Switch an io.Closer?
 	for t := 0; t < nt; t++ {
 		n := g.Range(1, 6)
 		for i := 0; i < n; i++ {
@@ -134,7 +136,14 @@ func run(p *kernel.Plan) (res *kernel.Result) {
 	tape := kernel.NewTape(p)
 	s := kernel.NewSched(kernel.ModeFutex, tape, 200000)
 	w := &simWriter{s: s}
-	logger.Switch(w)
+	logger.Close() // forget any closer remembered from an earlier run in this process
+	if p.C("closer") != 0 {
+		logger.Switch(w)
+	} else {
+		// a plain io.Writer: the library then sends colour escapes for warn/error
+		// lines to the process's stdout, never to the current writer
+		logger.Switch(struct{ io.Writer }{w})
+	}
 	installHook(func(point string) {
 		if t := s.Cur(); t != nil {
 			t.Yield(point)
